@@ -486,6 +486,7 @@ pub fn build_cases(g: &Grammar, thorough: bool) -> Vec<Case> {
     plain.extend(opt2);
     plain.extend(corpus::enum_docs(g));
     plain.extend(corpus::same_name_docs(g));
+    plain.extend(corpus::seq_len_docs(g));
     plain.extend(rich.clone());
     if thorough {
         plain.extend(corpus::opt_pair_docs(g, None));
